@@ -18,3 +18,22 @@ ASSUMPTIONS = [
 ]
 PROP_ASSUMPTIONS = {}
 NOT_COVERED = {}
+
+NOT_APPLICABLE = {
+    'C07': 'mutual exclusion of file locks is a property of interleavings of open/flock/unlink across OS processes; '
+           'no pre/postcondition on a single call expresses it and no concurrent program logic for Python is '
+           'available (DESIGN.md section 6, C07)',
+}
+
+MANIFEST_META = {
+    'C03': dict(
+        text='Proof (all grids, all levels, all coordinates, no bound) that the real grid.py functions meet contracts '
+             'taken from the property text: tile() contains its point, tile_bbox edges are the exact affine edges '
+             '(neighbours share edges), flip is an involution that preserves the ground rectangle when '
+             'supports_access_with_origin offers it, affected-tile lists are the full block row by row from the top '
+             'with no merely-touching tile and None outside the grid, closest_level implements the stated level '
+             'choice (unbounded loop invariant), _calc_grids sizes. Floats are modelled as reals.',
+        note='floats as exact reals (IEEE rounding not covered; round(x,12) as a +-5e-13 perturbation); pyvc encoding '
+             'trusted; TileGrid.__init__ establishing grid_wf (other than grid sizes) and strictly decreasing '
+             'resolutions are assumed; closest_level proved for grids without threshold_res; known finding S11'),
+}
